@@ -182,3 +182,20 @@ Proof.
   apply unit_children_exact with (in_info := in_info); auto.
   apply spec_siblings_wf_imp. exact Hs.
 Qed.
+
+(* the driver's executable placement check implies the Prop used by the theorems *)
+Lemma is_prefix_app p : forall l, is_prefix p l = true -> exists tail, l = p ++ tail.
+Proof.
+  induction p as [|x pr IH]; intros l H; [exists l; reflexivity|].
+  destruct l as [|y lr]; [discriminate|]. cbn [is_prefix] in H. apply andb_prop in H. destruct H as [Hxy Hr].
+  apply Z.eqb_eq in Hxy. subst y. destruct (IH lr Hr) as (tl & ->). exists tl. reflexivity.
+Qed.
+
+Theorem table_at_b_sound (abbrev_sec : list Z) (u : unit) :
+  atable_wf (u_table u) = true -> table_at_b abbrev_sec u = true -> table_at abbrev_sec u.
+Proof.
+  unfold table_at_b, table_at. intros Hwf H.
+  apply andb_prop in H. destruct H as [H Hp]. apply andb_prop in H. destruct H as [H0 H1].
+  destruct (is_prefix_app _ _ Hp) as (tl & Htl). exists tl. split; [exact Htl|].
+  unfold zlen in H1. lia.
+Qed.
